@@ -18,7 +18,7 @@ var (
 	poolHost   = []string{"example.com", "Example.com", "a.example.com", "example.com:8080", "test.org", "EXAMPLE.COM"}
 	poolMethod = []string{"GET", "POST", "PUT", "get", "G", "DELETE"}
 	poolPath   = []string{"/", "/a", "/a/b", "/admin", "/admin/x", "/A", "/a.b", "/x+y", "/info/v1", "/a/b/c"}
-	poolHName  = []string{"x-foo", "X-Foo", "User-Agent", "x-b"}
+	poolHName  = []string{"x-foo", "X-Foo", "User-Agent", "x-b", "authorization", "x-request-id", "Accept", "x-env", "x_under", "X-B"}
 	poolHVal   = []string{"a", "abc", "ABC", "curl/8.0", "b.c", "x y"}
 	poolPort   = []string{"80", "8080", "443", "0080", "65535", "0"}
 	badPort    = []string{"65536", "-1", "abc", "", "80a", "4294967376", "+80"}
@@ -93,6 +93,18 @@ func (g *genCtx) listOf(n int, f func() string) []string {
 func (g *genCtx) vals(f func() string) ([]string, []string) {
 	r := g.r
 	n := 1 + r.Intn(3)
+	if r.Chance(1, 10) {
+		n = 4 + r.Intn(4) // long value lists
+	}
+	if r.Chance(1, 12) {
+		// duplicate values (Go slices keep them; the OR / NOT(OR) semantics must not care)
+		l := g.listOf(n, f)
+		l = append(l, l[r.Intn(len(l))])
+		if r.Chance(1, 2) {
+			return l, nil
+		}
+		return nil, l
+	}
 	switch r.Intn(10) {
 	case 0, 1, 2, 3, 4, 5:
 		return g.listOf(n, f), nil
@@ -419,6 +431,9 @@ func (g *genCtx) genWhen() string {
 	var key string
 	var f func() string
 	x := r.Intn(100)
+	if g.phase3 && r.Chance(2, 5) {
+		x = 95 // the JWT / metadata keys (six generators) get 40% of the conditions of a phase-3 case
+	}
 	if g.customRule && g.valid {
 		// keys validation accepts for CUSTOM: headers, ips, destination.*, connection.sni
 		x = []int{0, 10, 26, 35, 70, 78, 85}[r.Intn(7)]
@@ -452,9 +467,13 @@ func (g *genCtx) genWhen() string {
 		} else if !g.valid {
 			key = wire.Pick(r, []string{"request.headersX[x-foo]", "request.headers[x-foo", "unknown.key", "request.headers[]", "request.headers", "source.ipx", "destination.labels[app]"})
 			f = g.hval
-		} else {
+		} else if r.Chance(1, 3) {
 			key = wire.Pick(r, []string{"request.headersX[x-foo]", "request.headers.more[x-foo]"}) // accepted by validation, untranslatable
 			f = g.hval
+		} else {
+			h := wire.Pick(r, poolHName)
+			g.note("hname", h)
+			key, f = "request.headers["+h+"]", g.hval
 		}
 	}
 	v, nv := g.vals(f)
@@ -522,9 +541,23 @@ func (g *genCtx) genPolicies(o genOpts) []string {
 			tds = append(tds, wire.Pick(r, []string{"*-td", "td*", "*"})) // rejected by mesh config validation (ValidateTrustDomain)
 		}
 		lines = append(lines, "td "+wire.EncList(tds))
+		// requests come from every trust domain of the bundle (also the alias-only ones) and their neighbours
+		for _, t := range tds {
+			if !strings.Contains(t, "*") {
+				g.note("td", t)
+				g.note("peer", t+","+wire.Pick(r, poolNS)+","+wire.Pick(r, poolSA))
+			}
+		}
 	}
-	if o.custom && r.Chance(1, 2) {
-		lines = append(lines, "custom "+wire.EncList(wire.Pick(r, [][]string{{"default"}, {"default", "p2"}, {"p2"}, {}, {"http:default"}, {"default", "http:p2"}}))+" "+wire.B(r.Chance(1, 3)))
+	quirkProv := false
+	if o.custom && r.Chance(3, 4) {
+		provs := wire.Pick(r, [][]string{{"default"}, {"default", "p2"}, {"p2"}, {}, {"http:default"}, {"default", "http:p2"}})
+		multi := r.Chance(1, 3)
+		if r.Chance(1, 12) {
+			// two providers, one name continuing into the other's policy ids (`default` / `default-ns`), feature on
+			provs, multi, quirkProv = []string{"default", "default-ns"}, true, true
+		}
+		lines = append(lines, "custom "+wire.EncList(provs)+" "+wire.B(multi))
 	}
 	// the workload: root namespace, namespace, labels, proxy type, Gateway API name, waypoint service, flags
 	w := wlGen{root: "istio-system", ns: "foo", labels: []string{"app=httpbin", "version=v1"}, ptype: "sidecar"}
@@ -536,6 +569,9 @@ func (g *genCtx) genPolicies(o genOpts) []string {
 	if r.Chance(1, 6) {
 		np = 4 + r.Intn(2)
 	}
+	if quirkProv && np < 2 {
+		np = 2 + r.Intn(2)
+	}
 	for i := 0; i < np; i++ {
 		action := "ALLOW"
 		switch x := r.Intn(100); {
@@ -544,6 +580,9 @@ func (g *genCtx) genPolicies(o genOpts) []string {
 		case x < 42 && o.audit:
 			action = "AUDIT"
 		case x < 52 && o.custom:
+			action = "CUSTOM"
+		}
+		if quirkProv && r.Chance(3, 5) {
 			action = "CUSTOM"
 		}
 		ns := w.ns
@@ -577,6 +616,9 @@ func (g *genCtx) genPolicies(o genOpts) []string {
 		prov := "~"
 		if action == "CUSTOM" {
 			prov = wire.Pick(r, []string{"default", "default", "default", "p2", "missing"})
+			if quirkProv {
+				prov = wire.Pick(r, []string{"default", "default-ns"})
+			}
 			if !g.valid && r.Chance(1, 10) {
 				prov = "~"
 			}
